@@ -246,6 +246,17 @@ func c15KeyPool() (map[string]*c15Key, error) {
 	if err := add("rsa3072", "rsa", 3072, k3, err); err != nil {
 		return nil, err
 	}
+	// RSA sizes are the bit length of the modulus: keys a few bits under a minimum whose byte
+	// length equals that of the minimum (2046 / 3070 bits) must be refused like any other
+	for _, bits := range []int{2046, 3070} {
+		k, err := rsa.GenerateKey(rand.Reader, bits)
+		if err == nil && k.N.BitLen() != bits {
+			err = fmt.Errorf("generated %d-bit modulus instead of %d", k.N.BitLen(), bits)
+		}
+		if err := add(fmt.Sprintf("rsa%d", bits), "rsa", bits, k, err); err != nil {
+			return nil, err
+		}
+	}
 	_, ed, err := ed25519.GenerateKey(rand.Reader)
 	if err := add("ed25519", "ed25519", 0, ed, err); err != nil {
 		return nil, err
@@ -707,8 +718,8 @@ func c15KeyFor(rng *kit.Rand, r *c15Role, want bool) string {
 	}
 	bad := map[string][]string{
 		"ec/256": {"ec224", "rsa2048", "ed25519"}, "ec/384": {"ec256", "ec224", "rsa3072"},
-		"rsa/2048": {"ec256", "ed25519"}, "rsa/3072": {"rsa2048", "ec384"},
-		"ed25519/0": {"ec256", "rsa2048"}, "any/0": {"ec256"},
+		"rsa/2048": {"ec256", "ed25519", "rsa2046", "rsa2046"}, "rsa/3072": {"rsa2048", "ec384", "rsa3070", "rsa3070"},
+		"ed25519/0": {"ec256", "rsa2048"}, "any/0": {"ec256", "rsa2046"},
 	}
 	k := fmt.Sprintf("%s/%d", r.KeyType, refDefaultBits(r.KeyType, r.KeyBits))
 	if want {
@@ -921,7 +932,7 @@ func c15GenReq(rng *kit.Rand, r *c15Role, now time.Time) *c15Req {
 	// CSR-carrying kinds
 	c := &c15CSR{Key: c15KeyFor(rng, r, fault != "key" && (positive || rng.Chance(3, 4)))}
 	if q.Kind == "verbatim" {
-		c.Key = kit.Pick(rng, []string{"ec224", "ec256", "ec384", "rsa2048", "ed25519"})
+		c.Key = kit.Pick(rng, []string{"ec224", "ec256", "ec384", "rsa2048", "ed25519", "rsa2046"})
 	}
 	q.CSR = c
 	if q.Kind == "verbatim" {
